@@ -309,8 +309,9 @@ func c19Derived(c *Ctx, r *Report) {
 			endUsed := false
 			for _, ref := range *call.Referrers() {
 				if ex, ok := ref.(*ssa.Extract); ok && ex.Index == 1 {
-					for _, r2 := range *ex.Referrers() {
-						if _, ok := r2.(*ssa.If); ok {
+					// directly, or carried to the loop condition (for end := false; !end; ...)
+					for _, b := range fn.Blocks {
+						if ifi, isIf := b.Instrs[len(b.Instrs)-1].(*ssa.If); isIf && sliceOf(ifi.Cond)[ex] {
 							endUsed = true
 						}
 					}
